@@ -254,6 +254,13 @@ fn check(rep: &mut Report, db: &AbsDb, rng: &mut Rng, case: u64) -> Result<(), F
         if let Some(p) = pb.problems.first() {
             return Err(Fail { clause: "saved/summary-stream-malformed".into(), what: format!("independent parser on the saved summary stream: {}", p) });
         }
+        // the code-page property is never set by this check's API changes: it must be exactly what it was
+        if pa.props.get(&1).map(|x| &x.1) != pb.props.get(&1).map(|x| &x.1) {
+            return Err(Fail {
+                clause: "saved/summary-codepage-property".into(),
+                what: format!("summary code-page property was {:?} in the file and is {:?} after unrelated API changes were saved", pa.props.get(&1).map(|x| &x.1), pb.props.get(&1).map(|x| &x.1)),
+            });
+        }
         for (id, (_, v)) in pa.props.iter() {
             if matches!(id, 1 | 2 | 3 | 4 | 6 | 7 | 9 | 12 | 15 | 18) {
                 continue;
